@@ -295,7 +295,7 @@ func intRange(t types.Type) (lo, hi *big.Int, ok bool) {
 }
 
 func (S *Sorts) sortOf(t types.Type) string {
-	if n, ok := t.(*types.Named); ok && n.Obj().Name() == "verifBytes" {
+	if n, ok := types.Unalias(t).(*types.Named); ok && n.Obj().Name() == "verifBytes" {
 		S.useBytes = true
 		return "Bytes"
 	}
